@@ -13,6 +13,8 @@ from mc import ref, build, hist, bipcheck
 from mc import universe as U
 from mc.budget import run_limited, budgeted
 
+BIGLABELS = ["a", "b", "c", "d", "e", "f", "g", "h", "i", "j"]
+
 ID = "C03"
 LEVEL = "model_checking"
 EXHAUSTIVE = True
@@ -44,9 +46,18 @@ MANIFEST = {
 NEW_LABELS = ["x", "y", "z"]
 
 
+BIG_STARTS = [
+    (((((((0, 1), 2), 3), 4), 5), 6), 7),                 # ladder, 8 leaves
+    (((0, 1), (2, 3)), ((4, 5), (6, 7))),                 # balanced, 8 leaves
+    (0, 1, 2, 3, 4, 5, 6, 7),                             # star, 8 leaves
+    ((0, 1, 2), ((3, 4), (5, (6, 7))), 8),                # mixed polytomies, 9 leaves
+]
+
+
 def bounds(tier):
     if tier == "quick":
-        return {"max_start_leaves": 4, "depth": 2, "length_patterns": ["none", "unit"], "rng_seeds": [0, 1, 2], "max_leaves": 5}
+        return {"max_start_leaves": 4, "depth": 2, "length_patterns": ["none", "unit"], "rng_seeds": [0, 1, 2], "max_leaves": 5,
+                "large_starts_depth_1": [ref.to_newick(ref.mk(x, labels=BIGLABELS), False) for x in BIG_STARTS]}
     return {"max_start_leaves": 4, "depth": 3, "length_patterns": ["none", "unit", "mixed"], "rng_seeds": [0, 1, 2], "max_leaves": 5,
             "extra_starts": "binary U(5) + star, depth 2"}
 
@@ -57,14 +68,14 @@ def bounds(tier):
 class Live(object):
     def __init__(self, start):
         n, si, rooted, lens, enc = start
-        shape = U.shapes(n)[si]
+        shape = _tup(si) if isinstance(si, (tuple, list)) else U.shapes(n)[si]
         if lens == "none":
-            sn = ref.mk(shape, lens=None)
+            sn = ref.mk(shape, lens=None, labels=BIGLABELS)
         elif lens == "unit":
-            sn = ref.mk(shape, lens=lambda i, leaf, depth: None if depth == 0 else 1.0)
+            sn = ref.mk(shape, lens=lambda i, leaf, depth: None if depth == 0 else 1.0, labels=BIGLABELS)
         else:
-            sn = ref.mk(shape, lens=lambda i, leaf, depth: None if depth == 0 else [1.0, 2.0, 0.0, 0.5][i % 4])
-        labels = U.LABELS[:n]
+            sn = ref.mk(shape, lens=lambda i, leaf, depth: None if depth == 0 else [1.0, 2.0, 0.0, 0.5][i % 4], labels=BIGLABELS)
+        labels = (U.LABELS[:n] if n <= len(U.LABELS) else BIGLABELS[:n])
         self.ns, self.bit = build.make_namespace(labels, "exact")
         self.tree = build.build_tree((rooted, sn), self.ns)
         self.enc = "absent"
@@ -491,6 +502,15 @@ def explore(tier, runner):
         live = Live(s)
         st.append((live.key(), (s, ())))
     hist.bfs(runner, "expand", st, b["depth"], chunk_size=4, extra={"tier": tier})
+    # larger representatives (size-triggered defects are invisible at n <= 4): every operation once
+    big = []
+    for shape in BIG_STARTS:
+        n = len(U.shape_leaves(shape))
+        for rooted in (True, False):
+            for enc in (False, True):
+                s = (n, shape, rooted, "unit", enc)
+                big.append((Live(s).key(), (s, ())))
+    hist.bfs(runner, "expand", big, 1, chunk_size=1, extra={"tier": tier})
     if tier == "thorough":
         st2 = []
         shapes5 = U.shapes(5)
